@@ -228,6 +228,13 @@ def check_case(ck, rec, maxs):
     ck.expect("concat", "S + T", st, ("val", "str", rec["cc"]))
     ck.expect("concat-length", "length(S + T) == length(S) + length(T)", st, ("val", "bool", 1))
     ck.expect("concat-starts", "starts_with(S + T, S) and ends_with(S + T, T)", st, ("val", "bool", 1))
+    # interpolation is re-entrant: a placeholder whose expression interpolates again (through a function of the
+    # program) leaves the placeholders to its right what they were
+    ck.expect("sprintf-nested", "do def tag_(v) sprintf('<{0}>', v); sprintf('{0}{tag_(1)}{0}{1}', S, T) == S + '<1>' + S + T end",
+              st, ("val", "bool", 1))
+    ck.expect("sprintf-nested-args", "do def tag_(v) sprintf('{1}{0}', v, T); sprintf('{1}{tag_(S)}{0}{1}', S, T) == T + T + S + S + T end",
+              st, ("val", "bool", 1))
+    ck.expect("s-nested", "do def tg_(v) s('[{v}]'); def w = S; s('{w}{tg_(T)}{w}') == S + '[' + T + ']' + S end", st, ("val", "bool", 1))
     if t:
         ck.expect("split", "split(S, escape_pattern(T))", st, ("val", "list", rec["sp"]))
         ck.expect("split-join", "join(split(S, escape_pattern(T)), T)", st, ("val", "str", s))
